@@ -235,7 +235,9 @@ Audit audit(vrt::Case& c, const Spec& sp)
   Audit out;
   const Dense& A = sp.A;
   const size_t n = A.r;
-  const string cls = sp.gen + "," + nClass(n);
+  // violation classes stay structural (size class, route, relation): one defect gives a handful of signatures whatever the generator
+  const string cls = nClass(n);
+  const string dcls = sp.gen + "," + nClass(n); // for the clauses about designed matrices the generator is the structure
   const int kA = static_cast<int>(c.rng.below(3));
   const string head = "A(" + string(1, KN[kA]) + ")=" + dump(A);
   unique_ptr<Matrix<double>> mA = fromDense(kA, A);
@@ -292,7 +294,7 @@ Audit audit(vrt::Case& c, const Spec& sp)
   {
     bool same = true;
     for (size_t i = 0; i < n; ++i) for (size_t j = 0; j < n; ++j) if (U(i, j) != sp.designedU(i, j)) same = false;
-    vrt::expect(same, "designed.U-of-permuted-triangular", cls, [&] { return head + " is a row permutation of the upper triangular T=" + dump(sp.designedU) + " (no elimination needed) but U=" + dump(U); });
+    vrt::expect(same, "designed.U-of-permuted-triangular", dcls, [&] { return head + " is a row permutation of the upper triangular T=" + dump(sp.designedU) + " (no elimination needed) but U=" + dump(U); });
   }
 
   // ---- determinant
@@ -354,7 +356,7 @@ Audit audit(vrt::Case& c, const Spec& sp)
   const int expectSolve = minU < SMALL ? -1 : minU > SMALL ? +1 : 0; // exactly on the threshold: left open
   string band = minU < SMALL / 4 ? "minpivot<SMALL/4" : minU < SMALL ? "SMALL/4<=minpivot<SMALL" : minU < 4 * SMALL ? "SMALL<=minpivot<4SMALL" : "minpivot>=4SMALL";
   if (sp.designed != 0)
-    vrt::expect(sp.designed == expectSolve, "designed.min-pivot-side", cls, [&] {
+    vrt::expect(sp.designed == expectSolve, "designed.min-pivot-side", dcls, [&] {
         return head + " was built with its smallest pivot " + (sp.designed > 0 ? "above" : "below") + " the threshold " + num(SMALL) + " but min|u_ii|=" + numL(minU) + " U=" + dump(U);
       });
   vrt::cover(sp.gen + ":n" + str(n) + ":" + band + ":exch" + str(min<size_t>(moved, 3)));
@@ -363,14 +365,14 @@ Audit audit(vrt::Case& c, const Spec& sp)
       // returns true when the call returned and the result has to be checked
       if (expectSolve < 0)
       {
-        vrt::expect(!o.returned() && o.type == "bpp::ZeroDivisionException", "singular.zero-division", cls + "," + route + "," + band + (o.returned() ? ",returned" : ",raised-other"), [&] {
+        vrt::expect(!o.returned() && o.type == "bpp::ZeroDivisionException", "singular.zero-division", cls + "," + route + (o.returned() ? ",returned" : ",raised-other"), [&] {
             return head + " has min|u_ii|=" + numL(minU) + " < " + num(SMALL) + " but " + callText + " " + o.text();
           });
         return false;
       }
       if (expectSolve > 0)
       {
-        if (!vrt::expect(o.returned(), "regular.returns", cls + "," + route + "," + band, [&] { return head + " has min|u_ii|=" + numL(minU) + " > " + num(SMALL) + " but " + callText + " " + o.text(); }))
+        if (!vrt::expect(o.returned(), "regular.returns", cls + "," + route, [&] { return head + " has min|u_ii|=" + numL(minU) + " > " + num(SMALL) + " but " + callText + " " + o.text(); }))
           return false;
       }
       else
@@ -647,7 +649,16 @@ void caseSvd(vrt::Case& c)
   if (sh != 0) for (double& x : sp.A.a) x = ldexp(x, sh);
   vrt::describe(sp.gen + ":n=" + str(n), "kappa=" + numL(kappa) + " scale=2^" + str(sh) + " A=" + dump(sp.A));
   vrt::cover("svd:" + fl + ":n" + str(n) + ":kappa1e" + str(static_cast<int>(floorl(log10l(kappa)))) + (sh ? ":scaled" : ""));
-  audit(c, sp);
+  Audit a = audit(c, sp);
+  // det(A) = det(A^T) for real matrices: both values lie within their own a-posteriori tolerance of det A
+  Spec st;
+  st.gen = "svd-transpose";
+  st.A = transposed(sp.A);
+  Audit t = audit(c, st);
+  if (a.ok && t.ok)
+    vrt::expect(fabsl(static_cast<LD>(a.det) - t.det) <= a.detTol + t.detTol, "det.transpose", nClass(n) + ",real", [&] {
+        return "A=" + dump(sp.A) + ": det(A)=" + num(a.det) + " det(A^T)=" + num(t.det) + " differ by more than " + numL(a.detTol + t.detTol);
+      });
 }
 
 // row-permuted triangular matrices with a designed smallest pivot
@@ -826,13 +837,13 @@ void caseRefuse(vrt::Case& c)
 int main(int argc, char** argv)
 {
   vector<vrt::Group> groups = {
-    { "int", 4000, 200000, caseInt, 300, false },
-    { "product", 1500, 60000, caseProduct, 300, false },
-    { "svd", 4000, 200000, caseSvd, 300, false },
-    { "triangular", 4800, 200000, caseTriangular, 300, false },
-    { "singular", 3000, 100000, caseSingular, 300, false },
-    { "scaled", 2000, 100000, caseScaled, 300, false },
-    { "refuse", 600, 20000, caseRefuse, 300, false },
+    { "int", 5000, 120000, caseInt, 300, false },
+    { "product", 2000, 45000, caseProduct, 300, false },
+    { "svd", 5000, 120000, caseSvd, 300, false },
+    { "triangular", 6000, 144000, caseTriangular, 300, false },
+    { "singular", 4000, 90000, caseSingular, 300, false },
+    { "scaled", 3000, 60000, caseScaled, 300, false },
+    { "refuse", 1000, 6000, caseRefuse, 300, false },
   };
   vrt::Meta meta;
   meta.rule = "One case = one square matrix, n = 1 + index mod 10, from the generator of its group: int (entries in [-9,9]: dense, sparse, {-1,0,1}, zero diagonal, ties, "
